@@ -176,6 +176,20 @@ def check_prefix(ctx, p, key, i, e):
         cc = eq_true(seg(1), ("field", src, "channel_id"))
         good = c3 and cp and cc
         why = "voucher accepted without all prefix decisions (3 segments: %s, port == packet.src.port_id: %s, channel == packet.src.channel_id: %s)" % (c3, cp, cc)
+    elif D[0] == "field" and D[2] == "1" and D[1][0] == "vfield" and D[1][2] == "Some" and D[1][1][0] == "call" \
+            and D[1][1][1].endswith("split_once"):
+        # split_once form: (port, rest) = denom.split_once('/'); (channel, local) = rest.split_once('/')
+        inner = D[1][1]                      # split_once(rest, '/')
+        rest = inner[2][0]
+        if rest[0] == "field" and rest[2] == "1" and rest[1][0] == "vfield" and rest[1][2] == "Some" and rest[1][1][0] == "call" \
+                and rest[1][1][1].endswith("split_once") and inner[2][1] == ("lit", "/") and rest[1][1][2][1] == ("lit", "/"):
+            outer = rest[1][1]               # split_once(denom, '/')
+            s0 = ("field", ("vfield", outer, "Some", "0"), "0")
+            s1 = ("field", ("vfield", inner, "Some", "0"), "0")
+            cp = eq_true(s0, ("field", src, "port_id"))
+            cc = eq_true(s1, ("field", src, "channel_id"))
+            good = cp and cc
+            why = "voucher accepted without all prefix decisions (port == packet.src.port_id: %s, channel == packet.src.channel_id: %s)" % (cp, cc)
     elif D[0] == "vfield" and D[2] == "Some" and D[1][0] == "calli" and D[1][1] == "next":
         # streamed form: it = denom.splitn(3, '/'); it.next(), it.next(), it.next() all Some
         it2 = D[1][2][0]
